@@ -40,7 +40,9 @@ Inductive obs :=
 | ObsOther.       (* any other exception class *)
 
 (* one wait() call: start node, speculating?, observed outcome, all flags False afterwards?, settled flags *)
-Definition step := (nat * bool * obs * bool * list bool)%type.
+(* spec: 0 = a real evaluation (try_compute.depth = 0); 1 = speculative, opening a new outermost speculation
+   (TryCompute.__enter__ at depth 0 empties not_ready_yet); 2 = speculative inside the speculation already open *)
+Definition step := (nat * nat * obs * bool * list bool * list bool)%type.   (* ..., settled flags, membership in not_ready_yet *)
 Definition wcase := (list nspec * list step)%type.
 
 (* the two bounds of wait() as the source has them now *)
@@ -85,13 +87,16 @@ Fixpoint mask_fn (specs : list nspec) (fl : list bool) : list bool :=
 Fixpoint run_steps (specs : list nspec) (G : graph) (st : state) (steps : list step) : bool :=
   match steps with
   | [] => true
-  | (i, sp, o, flags_clear, sett) :: rest =>
-    let r := wait py_bound py_bound2 (isp_of specs) sp G (fuel_for G) st i in
-    let st' := state_of st r in
+  | (i, spn, o, flags_clear, sett, mem) :: rest =>
+    let sp := negb (Nat.eqb spn 0) in
+    let st0 := if Nat.eqb spn 1 then clear_memo st else st in
+    let r := wait true py_bound py_bound2 (isp_of specs) sp G (fuel_for G) st0 i in
+    let st' := state_of st0 r in
     obs_matches r o
     && forallb negb (awaiting st')               (* the model restores its flags (also a theorem) *)
     && flags_clear
     && bools_eqb (mask_fn specs (settled_flags st')) (mask_fn specs sett)
+    && bools_eqb (memo st') mem
     && run_steps specs G st' rest
   end.
 
@@ -107,7 +112,8 @@ Definition has_unsettled (specs : list nspec) : bool :=
 
 Definition prop_step (specs : list nspec) (s : step) : bool :=
   match s with
-  | (_, sp, o, flags_clear, _) =>
+  | (_, spn, o, flags_clear, _, _) =>
+    let sp := negb (Nat.eqb spn 0) in
     flags_clear &&
     match o with
     | ObsVal _ | ObsCycle => true
